@@ -197,7 +197,12 @@ def evaluate(ctx, case: dict, work: pathlib.Path | None = None):
         # evaluated digit by digit in Python; cross-checked with the generator's ground truth
         s = case['s']
         fm = u.bounds_re.fullmatch(s)
-        out = '-' if fm is None else ' '.join(util.rat_str(GC.numeral_value(g)) for g in fm.groups())
+        def value(g):
+            try:
+                return util.rat_str(GC.numeral_value(g))
+            except Exception:  # noqa -- the live pattern captured something that is not a numeral
+                return f'?{codes(g)}'
+        out = '-' if fm is None else ' '.join(value(g) for g in fm.groups())
         if case.get('values') is not None:
             want = ' '.join(util.rat_str(Fraction(v)) for v in case['values'])
             if out != want:
@@ -711,10 +716,17 @@ def eval_cmd(ctx, case: dict, work: pathlib.Path):
 
 
 def prefix_misread(text: str) -> bool:
-    """does the live regular expression, used as a prefix match, read this text differently from a full match?"""
+    """is the real geometry_argument's reading of this bounds text the one a prefix match of the live regular
+    expression gives, and different from the full match?"""
     u = cli_utils()
     m, fm = u.bounds_re.match(text), u.bounds_re.fullmatch(text)
-    return m is not None and (fm is None or fm.groups() != m.groups())
+    if m is None or (fm is not None and fm.groups() == m.groups()):
+        return False
+    try:
+        got = u.geometry_argument(text)
+        return is_box_like(got) and canon_box(got) == ring_of([float(g) for g in m.groups()])
+    except Exception:  # noqa
+        return False
 
 
 # ---------------------------------------------------------------------------
@@ -886,7 +898,10 @@ def dataset_recipe(rng, conv: str, tier: str, for_clip: bool) -> dict:
         kw = {'coords_as': 'coords'} if for_clip else {}
         if conv != 'cf1d':
             kw['min_n'] = 2          # one-row curvilinear grids without stored bounds have no valid cell
-    r0 = G.random_recipe(rng, conv, tier, **kw)
+    for _ in range(50):
+        r0 = G.random_recipe(rng, conv, tier, **kw)
+        if any(G.build(r0).polys):       # at least one cell has a polygon
+            break
     for _ in range(20):
         r = G.attach_vars(rng, r0, n_vars=rng.choice([2, 3]), max_extra=2)
         if any(v.get('kind') == 'face' for v in r['vars']):     # something to extract / clip on the cells
